@@ -41,7 +41,12 @@ func Inv(d time.Duration) time.Duration {
 }
 
 func Midpoint(x, y time.Duration) time.Duration {
-	return x + (y-x)/2.0
+	d := y - x
+	if (y >= x) != (d >= 0) {
+		// y - x overflows: x and y have opposite signs, so x + y does not.
+		return (x + y) / 2
+	}
+	return x + d/2
 }
 
 func Median(ds []time.Duration) time.Duration {
